@@ -65,7 +65,7 @@ theorem fw_ops {e : Expr} {ops : List Expr} {H : List Val → World → Res Val 
     (hdec : ∀ n, (dec e n).L = (decList ops n).L ∧ (dec e n).c = mk (decList ops n).cs ∧ (dec e n).n = (decList ops n).n)
     (hhyp : ∀ D n N, Hyp D e n N → HypL D ops n N)
     (hsrc : ∀ ρ w r, Ev P e ρ w r → ¬Stuck r → RB (EvL P ops ρ w) H r)
-    (htgt : ∀ cs, (∀ i ∈ cs, isAtom i = true) → ∀ ρ w r, RB (EvL P cs ρ w) H r → Ev P (mk cs) ρ w r) :
+    (htgt : ∀ n ρ w r, RB (EvL P (decList ops n).cs ρ w) H r → Ev P (mk (decList ops n).cs) ρ w r) :
     FW P e := by
   intro n N D ρ ρ' w r hy ha he hs
   obtain ⟨hd1, hd2, _⟩ := hdec n
@@ -78,7 +78,7 @@ theorem fw_ops {e : Expr} {ops : List Expr} {H : List Val → World → Res Val 
   · rcases hL n N D ρ ρ' w _ (hhyp D n N hy) ha h1 (by simp) with ⟨f', w'', _, h4⟩ | ⟨ρ1, w1', h3, h4⟩
     · cases h4
     · cases h4
-      refine Or.inr ⟨ρ1, w1, h3, htgt _ (decList_cs_atoms ops n) ρ1 w1 r ?_⟩
+      refine Or.inr ⟨ρ1, w1, h3, htgt n ρ1 w1 r ?_⟩
       exact Or.inr ⟨_, w1, (evL_atoms (decList_cs_atoms ops n)).2 rfl, h2⟩
 
 theorem hypL_tail {D : List String} {e : Expr} {rest : List Expr} {n N : Nat} (hy : HypL D (e :: rest) n N) :
